@@ -848,6 +848,12 @@ def _check_field_init(facts, kind, tgt, fname, e, lets, pname, state_of, decoder
         if init is None:
             return False, 'field `%s` is initialised from local `%s` of unknown origin' % (fname, e['name'])
         fc2 = resolve_chain(init, lets)
+        if fc2 is None or not fc2[1] or fc2[0] != pname:
+            # through a struct of parts: `let Parts { x, .. } = Parts { x: state.x, .. }`
+            r_ = resolve_expr(init, lets)
+            fc3 = resolve_chain(r_, lets) if isinstance(r_, dict) else None
+            if fc3 is not None and fc3[1]:
+                fc2 = fc3
         if fc2 is None or not fc2[1]:
             if kind == 'default':
                 return True, ''
